@@ -7,5 +7,6 @@ var Registry = map[string]func(*core.Ctx){
 	"C01": C01,
 	"C06": C06,
 	"C13": C13,
+	"C15": C15,
 	"C17": C17,
 }
